@@ -171,12 +171,19 @@ def shell_cmd(shell):
     raise ValueError(shell)
 
 
+def limit_memory():
+    """preexec_fn: cap the address space of a process under test (a runaway allocation must end as a crash of that
+    process, not as memory exhaustion of the machine)"""
+    import resource
+    resource.setrlimit(resource.RLIMIT_AS, (8 << 30, 8 << 30))
+
+
 def run_proc(argv, cwd, env, stdin_data=None, timeout=20):
     """Run one process in its own process group; returns dict(out, err, rc, signal, timeout, wall_ms)."""
     t0 = time.time()
     try:
         p = subprocess.Popen(argv, cwd=cwd, env=env, stdin=subprocess.PIPE if stdin_data is not None else subprocess.DEVNULL,
-                             stdout=subprocess.PIPE, stderr=subprocess.PIPE, start_new_session=True)
+                             stdout=subprocess.PIPE, stderr=subprocess.PIPE, start_new_session=True, preexec_fn=limit_memory)
     except OSError as ex:
         raise ToolError("cannot spawn %r: %s" % (argv[0], ex))
     to = False
